@@ -60,7 +60,7 @@ package persistence
 
 // ------------------------------------------------------------------ C11 / C13: delete path
 //@ func (*Manager).Clear
-//@ prop C11 C13
+//@ prop C11 C13 C10
 //@ ensures[cookie-always-cleared] called(clearCookie)
 //@ ensures[stored-session-removed-or-error] ret1(decodeTicketFromRequest) == nil ==> called(clearSession)
 //@     && arg(clearSession, 0) == ret0(decodeTicketFromRequest) && ret0 == ret(clearSession)
